@@ -383,6 +383,47 @@ func scenarioC07(r *Run) {
 				}
 			}
 		}
+		if live := r.LiveSessions(); len(live) > 1 && !up4 && len(r.Violations) == 0 && r.Ch.Choose(5, "update-pdr-naming-foreign-teid") == 1 {
+			// the control plane of one session restates its uplink PDR with an explicit
+			// F-TEID whose value is the TEID the UP function chose for ANOTHER live
+			// session, then deletes its session: the other session's TEID stays taken
+			b := live[r.Ch.Choose(len(live), "foreign-b")]
+			var a *CPSession
+			for _, x := range live {
+				if x != b && len(x.PDRs) > 0 && x.PDRs[0].TEIDChoose && x.PDRs[0].GotTEID != 0 {
+					a = x
+				}
+			}
+			if a != nil && len(b.PDRs) > 0 && b.PDRs[0].SrcIface == IfAccess && b.PDRs[0].TEIDChoose {
+				up := b.PDRs[0].clone()
+				up.TEIDChoose, up.TEID, up.TEIDAddr = false, a.PDRs[0].GotTEID, ip4(N3Addr)
+				mr := b.Peer.Modify(b, &ModSpec{Tag: "uP:foreign-teid", UpdatePDR: []*PDRSpec{up}})
+				r.Op("modify cp=%d: Update PDR %d with explicit TEID %d (chosen for cp=%d) -> accepted=%v", b.CPSEID, up.ID, up.TEID, a.CPSEID, mr.Accepted)
+				r.Skel(fmt.Sprintf("mod:uP:foreign-teid:%v", mr.Accepted))
+				if mr.Accepted {
+					r.Probe("update-pdr-names-the-teid-of-another-session")
+					b.Peer.Delete(b)
+				}
+			}
+		}
+		if live := r.LiveSessions(); len(live) > 0 && !up4 && len(r.Violations) == 0 && r.Ch.Choose(5, "refused-removal-of-chosen-pdr") == 1 {
+			// a modification that removes a PDR with a UP-chosen TEID and is then refused
+			// (Remove FAR of an unknown rule): the PDR stays, and so does its TEID
+			s := live[r.Ch.Choose(len(live), "rrc-which")]
+			for _, pd := range s.PDRs {
+				if pd.TEIDChoose && pd.GotTEID != 0 {
+					mr := s.Peer.Modify(s, &ModSpec{Tag: "rP:chosen+rF:unknown", RemovePDR: []uint16{pd.ID}, RemoveFAR: []uint32{999}})
+					r.Op("modify cp=%d: remove PDR %d (UP-chosen TEID %d) and unknown FAR 999 -> accepted=%v", s.CPSEID, pd.ID, pd.GotTEID, mr.Accepted)
+					r.Skel(fmt.Sprintf("mod:rP:chosen+unknown:%v", mr.Accepted))
+					if mr.Accepted || mr.Rx == nil {
+						r.Inconclusive++
+						return
+					}
+					r.Probe("removal-of-a-chosen-teid-pdr-refused")
+					break
+				}
+			}
+		}
 		checkMarked(fmt.Sprintf("round %d", round))
 		if live := r.LiveSessions(); len(live) > 0 && r.Ch.Choose(3, "del") == 1 {
 			s := live[r.Ch.Choose(len(live), "which")]
